@@ -18,7 +18,8 @@ TNext ==
     \/ (Is("Note") /\ NoOp)
     \/ (Is("Create") /\ Create(Ev.by, Ev.u, Ev.arg, Ev.pool, IF "mig" \in DOMAIN Ev THEN Ev.mig = 1 ELSE TRUE))
     \/ (Is("CreateRet") /\ ByOK(Ev.by) /\ NoOp)
-    \/ (Is("Start") /\ Start(Ev.u, Ev.arg, Ev.n))
+    \/ (Is("Start") /\ Start(Ev.u, Ev.arg, Ev.n) /\ ("sp16" \in DOMAIN Ev => Aligned(Ev.sp16)))
+    \/ (Is("Ctx") /\ CtxKept(Ev.u, Ev.regs, Ev.mxcsr, Ev.x87) /\ NoOp)
     \/ (Is("Finish") /\ Finish(Ev.u))
     \/ (Is("Exit") /\ Finish(Ev.u))
     \/ (Is("Yield") /\ Yield(Ev.u))
